@@ -7,15 +7,17 @@ from driver import hyp_run, PropertyFailure
 ID = 'C07'
 HARNESS = {'asan': ['xvexec']}
 RULE = ('lane A (exhaustive): one element type with a generated content model, every child-name sequence up to length L over <=3 names, one '
-        'sequence per line of one document; the set of lines carrying a validity error must equal the set of non-members (membership decided by a '
-        'position automaton and by re.fullmatch). non-trivial = model has >=2 operators or is non-deterministic; every sequence is counted in '
+        'sequence per line of one document, plus ten pumped sequences of 33-59 children; the set of lines carrying a validity error must equal the set '
+        'of non-members (membership decided by a position automaton and by re.fullmatch up to length 5 / Brzozowski derivatives beyond). non-trivial = model has >=2 operators or is non-deterministic; every sequence is counted in '
         '`sequences`. lane B: random DTD (1-6 element types, ten attribute types x four default kinds, declarations in internal subset / external '
         'subset / internal+external parameter entities / conditional sections) + instance valid by construction; lane C: the same with one injected '
-        'violation; verdict always recomputed by the model validator. non-trivial(B) = instance uses a children model with >=2 operators, a '
+        'violation, one small campaign per mutation kind (34 kinds) on every worker; verdict always recomputed by the model validator. non-trivial(B) = instance uses a children model with >=2 operators, a '
         'defaulted or tokenised attribute, an entity reference, standalone=yes with external declarations, or a non-internal declaration; '
         'non-trivial(C) = the model reports >=1 violated class; distinct by sha1(document, external entities). Every case is parsed with '
-        'IG and DG scanners x SAX2 and DOM, validation on and off.')
-ASSUMPTIONS = ['membership witnesses (Glushkov simulation, Python re) agree or the case is dropped (oracle_disagreements)',
+        'IG and DG scanners x SAX2 and DOM with validation on, and with validation off on two of these four (events must be equal modulo T/IW); '
+        'namespaces on/off drawn per case.')
+ASSUMPTIONS = ['membership witnesses (Glushkov simulation; Python re or derivatives) agree or the case is dropped (oracle_disagreements)',
+               'internal parameter entities count as external markup declarations for standalone="yes" (definition in XML 1.0 2.9, 2nd-5th edition)',
                'non-deterministic content models are accepted and validated as regular languages (Xerces builds a DFA; XML 1.0 permits this)',
                'standalone="yes" cases use only the situations all editions classify alike (no enumerated-type normalisation, no entity '
                'references to externally declared entities, no ENTITY attributes naming externally declared unparsed entities)',
